@@ -30,6 +30,30 @@ Record flat_struct (s : struct) : Prop := {
               (exists t, classify tm (struct_fields_nc s) f = Some (MkNamed t)))
 }.
 
+(* a concrete struct with an abstract parent that carries the @size member first (Symbol transactions, blocks, receipts):
+   f0 = the size member, hrest = the other parent members; own members follow *)
+Record based_struct (s a : struct) (f0 : field) (i : intty) (hrest : list field) : Prop := {
+  bs_lookup : lookup tm (s_name s) = Some (DStruct s);
+  bs_base : base_struct tm s = Some a;
+  bs_concrete : s_disp s <> SdAbstract;
+  bs_all : struct_fields_nc s = f0 :: hrest ++ own_fields tm s;
+  bs_parent : struct_fields_nc a = f0 :: hrest;
+  bs_names : NoDup (map f_name (f0 :: hrest ++ own_fields tm s));
+  bs_attr_a : struct_size_attr a = Some "size";
+  bs_attr_s : struct_size_attr s = Some "size";
+  bs_f0_name : f_name f0 = "size";
+  bs_f0_type : f_type f0 = FInt i;
+  bs_f0_width : 0 < it_size i;
+  bs_f0_unsigned : it_unsigned i = true;
+  bs_f0_cond : f_cond f0 = None;
+  bs_f0_plain : is_reserved f0 = false;
+  bs_f0_settable : is_settable (struct_fields_nc s) f0 = true;
+  bs_ordered_h : ordered tm (struct_fields_nc s) [] hrest;
+  bs_ordered_o : ordered tm (struct_fields_nc s) hrest (own_fields tm s)
+}.
+
+Definition struct_ok (s : struct) : Prop := flat_struct s \/ exists a f0 i hrest, based_struct s a f0 i hrest.
+
 (* admissible values, by struct nesting depth *)
 Fixpoint adm (n : nat) (t : string) (v : value) : Prop :=
   match v with
@@ -51,7 +75,7 @@ Fixpoint adm (n : nat) (t : string) (v : value) : Prop :=
       t = cls /\
       match lookup_struct tm cls with
       | Some s =>
-        s_name s = cls /\ flat_struct s /\ map fst vs = map f_name (settable_fields s) /\
+        s_name s = cls /\ struct_ok s /\ map fst vs = map f_name (settable_fields s) /\
         forall f, In f (struct_fields_nc s) -> member_typed tm (struct_fields_nc s) (adm n') v f
       | None => False
       end
@@ -153,7 +177,7 @@ Proof. reflexivity. Qed.
 
 Lemma enc_struct_S k s v :
   enc_struct OP tm (S k) s v =
-  bind (size_struct OP tm k s v) (fun total =>
+  bind (size_struct_with OP tm (Rk k) s v) (fun total =>
   match base_struct tm s with
   | Some b =>
     bind (serialize_fields_go OP tm (Rk k) b (struct_fields_nc s) total v true (struct_fields_nc b)) (fun hb =>
@@ -167,13 +191,16 @@ Lemma size_struct_value k t cls vs :
   match lookup_struct tm cls with Some s => size_struct OP tm k s (VStruct cls vs) | None => Crash "AttributeError" end.
 Proof. reflexivity. Qed.
 
-Lemma size_struct_S k s v :
-  size_struct OP tm (S k) s v =
+Lemma size_struct_S k s v : size_struct OP tm (S k) s v = size_struct_with OP tm (Rk k) s v.
+Proof. reflexivity. Qed.
+
+Lemma size_struct_with_eq R s v :
+  size_struct_with OP tm R s v =
   match base_struct tm s with
   | Some b =>
-    bind (size_fields OP tm (Rk k) (struct_fields_nc s) v (struct_fields_nc b)) (fun hs =>
-    bind (size_fields OP tm (Rk k) (struct_fields_nc s) v (own_fields tm s)) (fun os => Ok (hs + os)))
-  | None => size_fields OP tm (Rk k) (struct_fields_nc s) v (own_fields tm s)
+    bind (size_fields OP tm R (struct_fields_nc s) v (struct_fields_nc b)) (fun hs =>
+    bind (size_fields OP tm R (struct_fields_nc s) v (own_fields tm s)) (fun os => Ok (hs + os)))
+  | None => size_fields OP tm R (struct_fields_nc s) v (own_fields tm s)
   end.
 Proof. reflexivity. Qed.
 
@@ -214,62 +241,175 @@ Qed.
 Lemma adm_leaf_any n t v : match v with VInt _ | VBytes _ => True | _ => False end -> adm n t v -> adm 0 t v.
 Proof. destruct v; try contradiction; intros _ H; destruct n; exact H. Qed.
 
-Theorem RT_all : forall n, RT n.
+Lemma nodup_app_l {A} (l1 l2 : list A) : NoDup (l1 ++ l2) -> NoDup l1.
+Proof. induction l1 as [|x l1 IH]; intros H; [constructor|]. cbn in H. inversion H as [|? ? Hn Hd]; subst. constructor; [|now apply IH]. intros Hx. apply Hn. apply in_or_app. now left. Qed.
+
+Lemma dec_struct_S_base k s a buf : s_disp s <> SdAbstract -> base_struct tm s = Some a ->
+  dec_struct OP tm (S k) s buf =
+  bind (dec_header_with OP tm (Rk k) a (struct_fields_nc s) buf) (fun h =>
+  let '(e0, ws, we) := h in
+  let wbuf := zskipn ws (zfirstn we buf) in
+  bind (deserialize_loop OP tm (Rk k) s (struct_fields_nc s) (own_fields tm s) [] [] [] e0 wbuf) (fun r =>
+  Ok (VStruct (s_name s) (collect s (fst r))))).
+Proof. intros Hd Hb. cbn [dec_struct]. rewrite Hb. destruct (s_disp s); try reflexivity. contradiction. Qed.
+
+(* what the decoder collected is the value's member list *)
+Lemma collect_ok s cls vs (adm_t : string -> value -> Prop) e (covered : list field) :
+  NoDup (map f_name (struct_fields_nc s)) ->
+  map fst vs = map f_name (settable_fields s) ->
+  (forall f, In f (settable_fields s) -> In f covered) ->
+  (forall f, In f covered -> In f (struct_fields_nc s)) ->
+  (forall f, In f (settable_fields s) -> member_typed tm (struct_fields_nc s) adm_t (VStruct cls vs) f) ->
+  env_ok tm (struct_fields_nc s) covered e (VStruct cls vs) ->
+  collect s e = vs.
 Proof.
-  induction n as [|n IH]; intros k Hk t v b rest Hadm Henc.
-  - destruct v; try (cbn in Hadm; contradiction); (eapply RT_leaf; [lia | exact I | exact Hadm | exact Henc]).
-  - destruct v as [z|bs|l|cls vs|]; try (cbn in Hadm; contradiction).
-    + eapply RT_leaf; [lia | exact I | eapply adm_leaf_any; [exact I | exact Hadm] | exact Henc].
-    + eapply RT_leaf; [lia | exact I | eapply adm_leaf_any; [exact I | exact Hadm] | exact Henc].
-    + (* structs *)
-      cbn [adm] in Hadm. destruct Hadm as (-> & Hadm). destruct (lookup_struct tm cls) as [s|] eqn:Hls; [|contradiction].
-      destruct Hadm as (Hname & Hflat & Hvs & Hty). destruct Hflat as [Hlk Hnb Hns Hconc Hnd Hnosz Hord Hfix].
-      destruct k as [|[|k']]; try lia.
-      rewrite enc_struct_value, Hls, enc_struct_S in Henc.
-      rewrite (base_none s Hnb), (own_fields_no_base s Hnb) in Henc.
-      destruct (size_struct OP tm k' s (VStruct cls vs)) as [total| |] eqn:Hsz; cbn [bind] in Henc; try discriminate.
-      set (self := VStruct cls vs) in *. set (allfs := struct_fields_nc s) in *.
-      rewrite (ser_fields_first OP tm (Rk k') s allfs Hns total self allfs) in Henc.
-      assert (Hsub : forall t' v' b' rest', adm n t' v' -> enc_t (Rk k') t' v' = Ok b' ->
-                 dec_t (Rk k') t' (b' ++ rest') = Ok v' /\ size_t (Rk k') t' v' = Ok (Z.of_nat (length b')) /\ (0 < length b')%nat).
-      { intros t' v' b' rest' Ha He. cbn [Rk enc_t dec_t size_t] in *. apply (IH k' ltac:(lia) t' v' b' rest' Ha He). }
-      destruct (loop_rt OP tm (Rk k') s allfs size_bad_now order_same_now get_bytes_bad_now (adm n) Hsub Hns
-                  allfs [] [] self total b rest [] Hord Hnd (fun f Hf => match Hf with end) Hty Henc) as (e' & Hloop & Henv).
-      pose proof (size_fields_ok OP tm (Rk k') s allfs (adm n) Hsub allfs self total b Hty Henc) as Hsize.
-      (* the decoded members are the value's members *)
-      assert (Hcollect : collect s e' = vs).
-      { unfold collect. transitivity (map (fun n0 => (n0, match find (fun p => String.eqb (fst p) n0) vs with Some p => snd p | None => VNull end)) (map fst vs));
-          [|apply assoc_rebuild; rewrite Hvs; apply settable_names_nodup; exact Hnd].
-        rewrite Hvs, map_map. apply map_ext_in. intros f Hf. f_equal.
-        pose proof (settable_sub s f Hf) as Hf'. pose proof (Hty f Hf') as Htf.
-        pose proof (Henv f ltac:(cbn [app]; exact Hf')) as He. unfold allfs in He. rewrite (settable_entry s self (adm n) f Hf Htf) in He.
-        destruct (typed_settable_present s (adm n) self f Hf Htf) as [v Hv].
-        rewrite eget_as_find in He. unfold self in He, Hv. rewrite vget_as_find in He, Hv.
-        destruct (find (fun p => String.eqb (fst p) (f_name f)) e') as [p|], (find (fun p => String.eqb (fst p) (f_name f)) vs) as [q|]; cbn in He, Hv; congruence. }
-      assert (Hdec : dec OP tm (S (S k')) cls (b ++ rest) = Ok self).
-      { rewrite (dec_struct_type (S k') cls s (b ++ rest)) by (rewrite <- Hname; exact Hlk).
-        rewrite (dec_struct_S_no_base k' s (b ++ rest) Hconc (base_none s Hnb)), (own_fields_no_base s Hnb). fold allfs. rewrite Hloop. cbn [bind fst].
-        now rewrite Hcollect, Hname. }
-      assert (Hsz' : size OP tm (S (S k')) cls self = Ok (Z.of_nat (length b))).
-      { unfold self. rewrite size_struct_value, Hls, size_struct_S, (base_none s Hnb), (own_fields_no_base s Hnb). exact Hsize. }
-      repeat split; [exact Hdec | exact Hsz' |].
-      (* at least one fixed-width member: the encoding is not empty *)
-      destruct Hfix as (f & Hin & Hkind).
-      apply in_split in Hin as (l1 & l2 & Hl). fold allfs in Hl.
-      assert (Henc2 : serialize_fields_go OP tm (Rk k') s allfs total self false (l1 ++ f :: l2) = Ok b) by (rewrite <- Hl; exact Henc).
-      destruct (member_offset OP tm (Rk k') s allfs total self l1 f l2 b Henc2) as (b1 & bf & b2 & _ & Hf & _ & -> & _).
-      assert (0 < length bf)%nat.
-      { pose proof (Hty f ltac:(rewrite Hl; apply in_or_app; right; now left)) as Htf. unfold member_typed in Htf.
-        destruct Hkind as [(kd & i & Hkd & Hik & Hpos)|(t & Hkd)]; fold allfs in Hkd.
-        - destruct (classify_int_kind tm allfs f kd i Hkd Hik) as [Hft Hc].
-          pose proof (member_size_ok OP tm (Rk k') s allfs (adm n) Hsub self total f bf (Hty f ltac:(rewrite Hl; apply in_or_app; right; now left)) Hf) as Hms.
-          rewrite (cond_self_none tm (Rk k') allfs self f Hc) in Hms. cbn [bind] in Hms. unfold member_size in Hms. rewrite Hft in Hms.
-          injection Hms as Hms. lia.
-        - rewrite Hkd in Htf. destruct Htf as (v & Hv & Hnn & Hav).
-          pose proof (classify_named tm allfs f t Hkd) as (Hc & Hb & Hr & Hft).
-          rewrite (conditional_present OP tm (Rk k') s allfs total self f t v (cond_self_none tm (Rk k') allfs self f Hc) Hb Hft Hr Hv Hnn) in Hf.
-          exact (proj2 (proj2 (Hsub t v bf [] Hav Hf))). }
-      rewrite !app_length. lia.
+  intros Hnd Hvs Hcov Hsub Hty Henv. unfold collect.
+  transitivity (map (fun n0 => (n0, match find (fun p => String.eqb (fst p) n0) vs with Some p => snd p | None => VNull end)) (map fst vs));
+    [|apply assoc_rebuild; rewrite Hvs; apply settable_names_nodup; exact Hnd].
+  rewrite Hvs, map_map. apply map_ext_in. intros f Hf. f_equal.
+  pose proof (Hty f Hf) as Htf.
+  pose proof (Henv f (Hcov f Hf)) as He. rewrite (settable_entry s (VStruct cls vs) adm_t f Hf Htf) in He.
+  destruct (typed_settable_present s adm_t (VStruct cls vs) f Hf Htf) as [v Hv].
+  rewrite eget_as_find in He. rewrite vget_as_find in He, Hv.
+  destruct (find (fun p => String.eqb (fst p) (f_name f)) e) as [p|], (find (fun p => String.eqb (fst p) (f_name f)) vs) as [q|]; cbn in He, Hv; congruence.
 Qed.
+
+Section OneLevel.
+Variable n : nat.
+Variable k' : nat.
+Hypothesis Hsub : forall t' v' b' rest', adm n t' v' -> enc_t (Rk k') t' v' = Ok b' ->
+  dec_t (Rk k') t' (b' ++ rest') = Ok v' /\ size_t (Rk k') t' v' = Ok (Z.of_nat (length b')) /\ (0 < length b')%nat.
+
+Lemma struct_rt_flat cls vs s b rest :
+  lookup_struct tm cls = Some s -> s_name s = cls -> flat_struct s -> map fst vs = map f_name (settable_fields s) ->
+  (forall f, In f (struct_fields_nc s) -> member_typed tm (struct_fields_nc s) (adm n) (VStruct cls vs) f) ->
+  enc OP tm (S (S k')) cls (VStruct cls vs) = Ok b ->
+  dec OP tm (S (S k')) cls (b ++ rest) = Ok (VStruct cls vs) /\ size OP tm (S (S k')) cls (VStruct cls vs) = Ok (Z.of_nat (length b)) /\ (0 < length b)%nat.
+Proof.
+  intros Hls Hname Hflat Hvs Hty Henc. destruct Hflat as [Hlk Hnb Hns Hconc Hnd Hnosz Hord Hfix].
+  rewrite enc_struct_value, Hls, enc_struct_S in Henc.
+  rewrite (base_none s Hnb), (own_fields_no_base s Hnb) in Henc.
+  destruct (size_struct_with OP tm (Rk k') s (VStruct cls vs)) as [total| |] eqn:Hsz; cbn [bind] in Henc; try discriminate.
+  set (self := VStruct cls vs) in *. set (allfs := struct_fields_nc s) in *.
+  assert (Hnsm : forall f, In f allfs -> not_size_member s f) by (intros f _; unfold not_size_member; now rewrite Hns).
+  rewrite (ser_fields_first OP tm (Rk k') s allfs total self allfs Hnsm) in Henc.
+  destruct (loop_rt OP tm (Rk k') s allfs size_bad_now order_same_now get_bytes_bad_now (adm n) Hsub
+              allfs [] [] self total b rest [] Hnsm Hord Hnd (fun f Hf => match Hf with end) Hty Henc) as (e' & Hloop & Henv & _).
+  pose proof (size_fields_ok OP tm (Rk k') s allfs (adm n) Hsub allfs self total b Hty Henc) as Hsize.
+  assert (Hcollect : collect s e' = vs).
+  { apply (collect_ok s cls vs (adm n) e' allfs Hnd Hvs (settable_sub s) (fun f H => H) (fun f Hf => Hty f (settable_sub s f Hf))). exact Henv. }
+  assert (Hdec : dec OP tm (S (S k')) cls (b ++ rest) = Ok self).
+  { rewrite (dec_struct_type (S k') cls s (b ++ rest)) by (rewrite <- Hname; exact Hlk).
+    rewrite (dec_struct_S_no_base k' s (b ++ rest) Hconc (base_none s Hnb)), (own_fields_no_base s Hnb). fold allfs. rewrite Hloop. cbn [bind fst].
+    now rewrite Hcollect, Hname. }
+  assert (Hsz' : size OP tm (S (S k')) cls self = Ok (Z.of_nat (length b))).
+  { unfold self. rewrite size_struct_value, Hls, size_struct_S, size_struct_with_eq, (base_none s Hnb), (own_fields_no_base s Hnb). exact Hsize. }
+  repeat split; [exact Hdec | exact Hsz' |].
+  destruct Hfix as (f & Hin & Hkind).
+  apply in_split in Hin as (l1 & l2 & Hl). fold allfs in Hl.
+  assert (Henc2 : serialize_fields_go OP tm (Rk k') s allfs total self false (l1 ++ f :: l2) = Ok b) by (rewrite <- Hl; exact Henc).
+  destruct (member_offset OP tm (Rk k') s allfs total self l1 f l2 b Henc2) as (b1 & bf & b2 & _ & Hf & _ & -> & _).
+  assert (0 < length bf)%nat.
+  { pose proof (Hty f ltac:(rewrite Hl; apply in_or_app; right; now left)) as Htf. unfold member_typed in Htf.
+    destruct Hkind as [(kd & i & Hkd & Hik & Hpos)|(t & Hkd)]; fold allfs in Hkd.
+    - destruct (classify_int_kind tm allfs f kd i Hkd Hik) as [Hft Hc].
+      pose proof (member_size_ok OP tm (Rk k') s allfs (adm n) Hsub self total f bf (Hty f ltac:(rewrite Hl; apply in_or_app; right; now left)) Hf) as Hms.
+      rewrite (cond_self_none tm (Rk k') allfs self f Hc) in Hms. cbn [bind] in Hms. unfold member_size in Hms. rewrite Hft in Hms.
+      injection Hms as Hms. lia.
+    - rewrite Hkd in Htf. destruct Htf as (v & Hv & Hnn & Hav).
+      pose proof (classify_named tm allfs f t Hkd) as (Hc & Hb & Hr & Hft).
+      rewrite (conditional_present OP tm (Rk k') s allfs total self f t v (cond_self_none tm (Rk k') allfs self f Hc) Hb Hft Hr Hv Hnn) in Hf.
+      exact (proj2 (proj2 (Hsub t v bf [] Hav Hf))). }
+  rewrite !app_length. lia.
+Qed.
+
+Lemma struct_rt_based cls vs s a f0 i hrest b rest :
+  lookup_struct tm cls = Some s -> s_name s = cls -> based_struct s a f0 i hrest -> map fst vs = map f_name (settable_fields s) ->
+  (forall f, In f (hrest ++ own_fields tm s) -> member_typed tm (struct_fields_nc s) (adm n) (VStruct cls vs) f) ->
+  enc OP tm (S (S k')) cls (VStruct cls vs) = Ok b ->
+  dec OP tm (S (S k')) cls (b ++ rest) = Ok (VStruct cls vs) /\ size OP tm (S (S k')) cls (VStruct cls vs) = Ok (Z.of_nat (length b)) /\ (0 < length b)%nat.
+Proof.
+  intros Hls Hname Hb Hvs Hty Henc.
+  destruct Hb as [Hlk Hbase Hconc Hall Hpar Hnd Hattr_a Hattr_s Hf0n Hf0t Hf0w Hf0u Hf0c Hf0r Hf0s Hord_h Hord_o].
+  rewrite enc_struct_value, Hls, enc_struct_S, Hbase in Henc.
+  set (self := VStruct cls vs) in *. set (allfs := struct_fields_nc s) in *. set (own := own_fields tm s) in *.
+  set (w := Z.to_nat (it_size i)).
+  rewrite Hpar in Henc.
+  destruct (size_struct_with OP tm (Rk k') s self) as [total| |] eqn:Hsz; cbn [bind] in Henc; try discriminate.
+  (* header: the size member, then the other parent members *)
+  rewrite ser_fields_cons in Henc.
+  assert (Hser0 : serialize_field OP tm (Rk k') a allfs total self true f0 = py_to_bytes w false total).
+  { unfold serialize_field, is_size_first. rewrite Hattr_a, Hf0n, !String.eqb_refl. cbn [andb]. now rewrite Hf0t. }
+  rewrite Hser0 in Henc.
+  destruct (py_to_bytes w false total) as [szb| |] eqn:Hszb; cbn [bind] in Henc; try discriminate.
+  destruct (serialize_fields_go OP tm (Rk k') a allfs total self false hrest) as [hr| |] eqn:Hhr; cbn [bind] in Henc; try discriminate.
+  (* names: the size member's name occurs nowhere else *)
+  cbn [map] in Hnd. inversion Hnd as [|? ? Hsize_notin Hnd']; subst.
+  assert (Hnsm_h : forall f, In f hrest -> not_size_member a f).
+  { intros f Hf. unfold not_size_member. rewrite Hattr_a. apply String.eqb_neq. intros Heq. apply Hsize_notin. rewrite Hf0n, Heq.
+    apply in_map, in_or_app. now left. }
+  assert (Hnsm_o : forall f, In f own -> not_size_member s f).
+  { intros f Hf. unfold not_size_member. rewrite Hattr_s. apply String.eqb_neq. intros Heq. apply Hsize_notin. rewrite Hf0n, Heq.
+    apply in_map, in_or_app. now right. }
+  rewrite (ser_fields_first OP tm (Rk k') s allfs total self own Hnsm_o) in Henc.
+  destruct (serialize_fields_go OP tm (Rk k') s allfs total self false own) as [ob| |] eqn:Hob; cbn [bind] in Henc; try discriminate.
+  injection Henc as <-.
+  destruct (py_int_roundtrip w false total szb (hr ++ ob ++ rest) Hszb) as [Hx Hlenw].
+  (* sizes *)
+  pose proof (size_fields_ok OP tm (Rk k') a allfs (adm n) Hsub hrest self total hr (fun f Hf => Hty f (in_or_app _ _ _ (or_introl Hf))) Hhr) as Hsize_h.
+  pose proof (size_fields_ok OP tm (Rk k') s allfs (adm n) Hsub own self total ob (fun f Hf => Hty f (in_or_app _ _ _ (or_intror Hf))) Hob) as Hsize_o.
+  assert (Htotal : total = Z.of_nat (length ((szb ++ hr) ++ ob))).
+  { rewrite size_struct_with_eq, Hbase in Hsz. fold allfs own in Hsz. rewrite Hpar in Hsz. cbn [size_fields] in Hsz.
+    rewrite (cond_self_none tm (Rk k') allfs self f0 Hf0c) in Hsz. cbn [bind] in Hsz. unfold member_size in Hsz. rewrite Hf0t in Hsz. cbn [bind] in Hsz.
+    rewrite Hsize_h in Hsz. cbn [bind] in Hsz. rewrite Hsize_o in Hsz. cbn [bind] in Hsz. injection Hsz as <-.
+    rewrite !app_length, Hlenw. unfold w. lia. }
+  (* decode: the parent header with its window, then the own members *)
+  assert (Hload0 : load_field OP tm (Rk k') a allfs [] f0 (((szb ++ hr) ++ ob) ++ rest) = Ok (VInt total, hr ++ ob)).
+  { unfold load_field. rewrite Hf0t, Hattr_a, Hf0n, String.eqb_refl, Hf0r, Hf0u. cbn [negb]. fold w.
+    replace (((szb ++ hr) ++ ob) ++ rest) with (szb ++ hr ++ ob ++ rest) by (now rewrite <- !app_assoc).
+    rewrite Hx. f_equal. f_equal.
+    replace (szb ++ hr ++ ob ++ rest) with (((szb ++ hr) ++ ob) ++ rest) by (now rewrite <- !app_assoc).
+    rewrite Htotal, zfirstn_app, <- !app_assoc. apply skipn_app_exact. exact Hlenw. }
+  destruct (loop_rt OP tm (Rk k') a allfs size_bad_now order_same_now get_bytes_bad_now (adm n) Hsub
+              hrest [] [("size", VInt total)] self total hr ob ["size"] Hnsm_h Hord_h
+              ltac:(cbn [app]; rewrite map_app in Hnd'; exact (nodup_app_l _ _ Hnd'))
+              (fun f Hf => match Hf with end) (fun f Hf => Hty f (in_or_app _ _ _ (or_introl Hf))) Hhr) as (e1 & Hloop_h & Henv_h & Hkeep_h).
+  assert (Hsize_env : eget e1 "size" = Some (VInt total)).
+  { rewrite Hkeep_h; [apply eget_cons_eq|]. intros Hin. apply Hsize_notin. rewrite Hf0n, map_app. apply in_or_app. now left. }
+  assert (Hheader : dec_header_with OP tm (Rk k') a allfs (((szb ++ hr) ++ ob) ++ rest) = Ok (e1, total - Z.of_nat (length ob), total)).
+  { unfold dec_header_with. rewrite Hpar. cbn [deserialize_loop]. rewrite Hf0c. unfold deserialize_field.
+    rewrite (cond_local_none tm allfs [] f0 Hf0c). cbn [bind]. rewrite Hload0. cbn [bind fst snd find drain_queue]. rewrite Hf0n, Hloop_h. cbn [bind fst snd existsb].
+    rewrite String.eqb_refl. cbn [orb]. now rewrite Hsize_env. }
+  cbn [app] in Henv_h.
+  destruct (loop_rt OP tm (Rk k') s allfs size_bad_now order_same_now get_bytes_bad_now (adm n) Hsub
+              own hrest e1 self total ob [] [] Hnsm_o Hord_o Hnd' Henv_h (fun f Hf => Hty f (in_or_app _ _ _ (or_intror Hf))) Hob) as (e2 & Hloop_o & Henv_o & _).
+  assert (Hsettable : forall f, In f (settable_fields s) -> In f (hrest ++ own)).
+  { intros f Hf. unfold settable_fields in Hf. fold (struct_fields_nc s) in Hf. fold allfs in Hf.
+    assert (Hfl : filter (is_settable allfs) allfs = f0 :: filter (is_settable allfs) (hrest ++ own)).
+    { rewrite Hall at 2. cbn [filter]. now rewrite Hf0s. }
+    rewrite Hfl in Hf. cbn [drop_first_size] in Hf. rewrite Hf0n, String.eqb_refl in Hf. apply filter_In in Hf. tauto. }
+  assert (Hcollect : collect s e2 = vs).
+  { apply (collect_ok s cls vs (adm n) e2 (hrest ++ own)).
+    - fold allfs. rewrite Hall. cbn [map]. constructor; assumption.
+    - exact Hvs.
+    - exact Hsettable.
+    - intros f Hf. fold allfs. rewrite Hall. now right.
+    - intros f Hf. apply Hty, Hsettable, Hf.
+    - exact Henv_o. }
+  assert (Hdec : dec OP tm (S (S k')) cls (((szb ++ hr) ++ ob) ++ rest) = Ok self).
+  { rewrite (dec_struct_type (S k') cls s) by (rewrite <- Hname; exact Hlk).
+    rewrite (dec_struct_S_base k' s a _ Hconc Hbase). fold allfs own. rewrite Hheader. cbn [bind].
+    replace (zskipn (total - Z.of_nat (length ob)) (zfirstn total (((szb ++ hr) ++ ob) ++ rest))) with (ob ++ []).
+    2:{ rewrite Htotal at 2. rewrite zfirstn_app, app_nil_r.
+        replace (total - Z.of_nat (length ob)) with (Z.of_nat (length (szb ++ hr))) by (rewrite Htotal, !app_length; lia).
+        now rewrite zskipn_app. }
+    rewrite Hloop_o. cbn [bind fst]. now rewrite Hcollect, Hname. }
+  assert (Hsz' : size OP tm (S (S k')) cls self = Ok (Z.of_nat (length ((szb ++ hr) ++ ob)))).
+  { unfold self. rewrite size_struct_value, Hls, size_struct_S. fold self. rewrite Hsz. f_equal. exact Htotal. }
+  repeat split; [exact Hdec | exact Hsz' |].
+  rewrite !app_length, Hlenw. unfold w. lia.
+Qed.
+
+End OneLevel.
 
 End Flat.
